@@ -164,6 +164,12 @@ def gen_content(rng, cfg, size='normal'):
         if code not in [a[1] for a in attrs]:
             attrs.insert(rng.below(len(attrs) + 1), (rng.choice([0x80, 0xc0, 0xe0, 0x40]), code, bytes(rng.below(256) for _ in range(rng.below(9))), rng.chance(1, 4)))
     c['attrs'] = attrs
+    if c['attrs'] and rng.chance(1, 6):
+        # flag bits that do not take part in recognising an attribute: Partial (legitimate on any optional transitive attribute
+        # that passed a router not knowing it) and the four low bits, which are to be ignored on receipt
+        k = rng.below(len(c['attrs']))
+        f, code, v, ext = c['attrs'][k]
+        c['attrs'][k] = (f | rng.choice([0x20, 0x20, 0x01, 0x0f, 0x28]), code, v, ext)
     return c, exp
 
 
